@@ -67,6 +67,11 @@ def _enc(obj, out):
             out.append(b'OFitInfo')
             _enc([obj.source, obj.av, obj.sc, obj.chi2, obj.model_id, obj.model_name,
                   obj.model_fluxes, getattr(obj, 'meta', None)], out)
+            known = ('source', 'av', 'sc', 'chi2', 'model_id', 'model_name', 'model_fluxes', 'meta')
+            extra = {k: v for k, v in vars(obj).items() if k not in known}
+            if extra:        # hidden state a changed implementation might add
+                out.append(b'+')
+                _enc({k: (v if _encodable(v) else repr(v)) for k, v in extra.items()}, out)
         elif name == 'FitInfoMeta':
             out.append(b'OMeta')
             _enc([getattr(obj, 'model_dir', None), getattr(obj, 'filters', None),
@@ -85,6 +90,14 @@ def _enc(obj, out):
             _enc(np.asarray(obj), out)
         else:
             raise TypeError("canon: don't know how to encode %r" % type(obj))
+
+
+def _encodable(v):
+    try:
+        _enc(v, [])
+        return True
+    except TypeError:
+        return False
 
 
 def canon_bytes(obj):
